@@ -31,6 +31,10 @@ thread_local! {
     static TL_RNG: std::cell::RefCell<Option<(u64, Rng, usize)>> = const { std::cell::RefCell::new(None) };
 }
 
+/// C07 "cancel-before-run": trigger the token after the graph is built and
+/// before run() is entered ("at any moment" includes a Ctrl-C racing start-up).
+static CANCEL_BEFORE_RUN: AtomicBool = AtomicBool::new(false);
+
 fn do_cancel(site: &str) {
     if let Some(t) = CANCEL_TOKEN.lock().unwrap().as_ref() {
         t.cancel();
@@ -155,7 +159,7 @@ impl Monitor {
                 // The token is cancelled by now (by the scenario or by the rule
                 // above). A runner that keeps going regardless cannot be stopped
                 // from here: judge by logical steps, then leave the process.
-                if token.is_canceled() && !s2.load(Ordering::SeqCst) {
+                if (token.is_canceled() || CANCELLED.load(Ordering::SeqCst)) && !s2.load(Ordering::SeqCst) {
                     let snap: Vec<u64> = stats.iter().map(|s| s.calls.load(Ordering::SeqCst)).collect();
                     let t1 = Instant::now();
                     while !s2.load(Ordering::SeqCst) && t1.elapsed() < Duration::from_secs(20) {
@@ -168,7 +172,7 @@ impl Monitor {
                                 fatal_violation(
                                     &prop,
                                     &format!("{prop}|runner-does-not-stop-after-cancel"),
-                                    &format!("the cancellation token is set but run() does not return: every live block was called 500+ more times after cancellation; work() calls per block {calls:?}; case {case}"),
+                                    &format!("cancel() was called (token reads cancelled now: {}) but run() does not return: every live block was called 500+ more times after cancellation; work() calls per block {calls:?}; case {case}", token.is_canceled()),
                                     case,
                                 );
                             }
@@ -276,6 +280,9 @@ pub fn run_graph(built: BuiltGraph, order: &[usize], mt: bool, delay_seed: u64, 
     }
     let token = if mt { mtg.cancel_token() } else { stg.cancel_token() };
     *CANCEL_TOKEN.lock().unwrap() = Some(token.clone());
+    if CANCEL_BEFORE_RUN.swap(false, Ordering::SeqCst) {
+        do_cancel("before-run()");
+    }
     let mut mon = Monitor::start(stats.clone(), token, min_calls, Duration::from_secs(120));
     // A second thread watching the VectorSink through its hook: holds the data
     // guard for 20-400 us at a time, as a test or UI thread would.
@@ -459,10 +466,25 @@ fn c05_case(c: &GCase, rep: &mut Report) -> Vec<(String, String)> {
 
 // ---------------------------------------------------------------------- C06
 
-/// Block types that, on the pinned tree, answer WaitForStream/WaitForFunc/EOF from a
-/// call in which they moved data (by design of their work()): the recorded C06
-/// finding is about exactly these in the deciding pass.
-const KNOWN_MOVERS: &[&str] = &["CollectSink", "VectorSink", "Delay", "FftFilter", "FftFilterFloat", "RationalResampler", "VectorSource"];
+/// (block type, verdict) pairs that, on the pinned tree, come from a call in
+/// which the block also moved data (by design of their work()): the recorded
+/// C06 finding is about exactly these in the deciding pass. "wait-in/-out" =
+/// WaitForStream naming one of the block's inputs / outputs (told apart by
+/// which yield point a non-blocking wait(0) on the named stream passes). The
+/// set is what 360 000 generated runs showed (six quick seeds and one thorough
+/// run); any other pair, e.g. a Delay that starts answering "wait on my output"
+/// after writing part of its zeroes, is reported.
+const KNOWN_MOVERS: &[&str] = &[
+    "CollectSink/wait-in",
+    "VectorSink/wait-in",
+    "Delay/wait-in",
+    "FftFilter/wait-in",
+    "FftFilter/wait-out",
+    "FftFilterFloat/func",
+    "RationalResampler/wait-in",
+    "RationalResampler/wait-out",
+    "VectorSource/eof",
+];
 
 /// Executable model of the termination rule that the known finding is about:
 /// call every live block in add order; stop after a pass in which nobody
@@ -586,7 +608,8 @@ fn c06_case(c: &GCase, rep: &mut Report) -> Vec<(String, String)> {
                 // Which block types moved data and answered something else than Again in
                 // the deciding pass? The recorded finding names them; a block type that is
                 // not among them (e.g. a sync block) points to a different defect.
-                let mut movers: Vec<String> = last.iter().filter(|(_, v, m)| *m && *v != 0).map(|(n, _, _)| n.split('<').next().unwrap_or(n).to_string()).collect();
+                let kind = |v: u8| match v { 1 => "pending", 2 => "func", 4 => "eof", 5 => "err", 6 => "wait-in", 7 => "wait-out", _ => "wait" };
+                let mut movers: Vec<String> = last.iter().filter(|(_, v, m)| *m && *v != 0).map(|(n, v, _)| format!("{}/{}", n.split('<').next().unwrap_or(n), kind(*v))).collect();
                 movers.sort();
                 movers.dedup();
                 rep.set("final_pass_movers", movers.join(","));
@@ -742,6 +765,7 @@ fn c07_case(c: &C07Case, rep: &mut Report) -> Vec<(String, String)> {
     let mut outside: Option<std::thread::JoinHandle<()>> = None;
     match c.kind.as_str() {
         "cancel-at-yield" => CANCEL_AT_YIELD.store(c.k, Ordering::SeqCst),
+        "cancel-before-run" => CANCEL_BEFORE_RUN.store(true, Ordering::SeqCst),
         "cancel-outside" => {
             let us = c.k;
             outside = Some(std::thread::spawn(move || {
@@ -862,7 +886,7 @@ pub fn main(opts: &Opts, prop: &str) -> Report {
     rep.rule = match prop {
         "C05" => "generated graph programs (chains, tee/merge diamonds, rate changers, packet stages; CollectSink or a VectorSink watched by a second thread; finite VectorSource of 0..5 capacities; streams of 1,2,4,16 pages or default) run on MTGraph in seeded add orders with seeded PCT-style delays at yield hooks (incl. >100 ms sleeps so wait time-outs fire); termination decided by a logical stuck rule, sink compared with the harness's own sequential reference executor; distinct = (program, interleaving signature of the global produce/consume order)".into(),
         "C06" => "same generator on the single-threaded Graph (a quarter of the programs end in the library's VectorSink while a second thread keeps taking its Hook::data() guard for 20-400 us at a time); add orders forward, reverse and random; after run() returns Ok every block is called again through a hook accessor and no data may move (quiescence probe), then the sink is compared with the reference; early returns are classified by whether the deciding pass contained a data-moving call with a non-Again verdict; distinct = (program, add order)".into(),
-        _ => "chains of 1-5 blocks behind finite and infinite sources on both runners; cancellation from an outside thread after a seeded delay, from the hook callback at the k-th yield event of whichever thread gets there, and from inside a block's work(); a failing block at every position failing on call k in {1,2,5,50}; distinct = (kind, runner, cancellation site or failure position, k)".into(),
+        _ => "chains of 1-5 blocks behind finite and infinite sources on both runners; cancellation before run() is entered, from an outside thread after a seeded delay, from the hook callback at the k-th yield event of whichever thread gets there, and from inside a block's work(); a failing block at every position failing on call k in {1,2,5,50}; distinct = (kind, runner, cancellation site or failure position, k)".into(),
     };
     rep.assume("blocks in generated graphs are deterministic functions of stream state and peer liveness; stuck = no data event and no block exit while every live block was called N more times");
     crate::rec::install(true);
@@ -939,7 +963,7 @@ pub fn main(opts: &Opts, prop: &str) -> Report {
         _ => {
             let runs = opts.budget(16 * 60, 16 * 3000);
             for k in 0..runs {
-                let kind = ["cancel-outside", "cancel-at-yield", "cancel-inside", "fail", "fail-then-cancel"][(k % 5) as usize];
+                let kind = ["cancel-outside", "cancel-at-yield", "cancel-inside", "fail", "fail-then-cancel", "cancel-before-run"][(k % 6) as usize];
                 let chain = rng.range(1, 5);
                 let c = C07Case {
                     kind: kind.to_string(),
